@@ -998,4 +998,62 @@ example : (step (fun _ => false) (run (fun _ => false) St.empty [.mkRepo [114], 
 example : Inv (run (fun _ => false) St.empty [.mkRepo [114], .set [114] [118] [49]]) := C08_reachable_inv _ _
 
 example : opOK (.list [114] [118]) := by show prefixTrigger _ = false; decide
+/-! ### a listing that races with another client -/
+
+theorem collect_some_mem {α : Type} : ∀ (l : List (Option α)) (r : List α), collect l = some r →
+    ∀ a, some a ∈ l → a ∈ r := by
+  intro l
+  induction l with
+  | nil => intro r _ a ha; simp at ha
+  | cons x t ih =>
+    intro r h a ha
+    cases x with
+    | none => simp [collect] at h
+    | some b =>
+      simp only [collect, Option.map_eq_some_iff] at h
+      obtain ⟨r', hr', rfl⟩ := h
+      rcases List.mem_cons.mp ha with e | e
+      · cases e; simp
+      · exact List.mem_cons_of_mem _ (ih r' hr' a e)
+
+theorem collect_some_all {α : Type} : ∀ (l : List (Option α)) (r : List α), collect l = some r →
+    ∀ x ∈ l, x ≠ none := by
+  intro l
+  induction l with
+  | nil => intro r _ x hx; simp at hx
+  | cons y t ih =>
+    intro r h x hx
+    cases y with
+    | none => simp [collect] at h
+    | some b =>
+      simp only [collect, Option.map_eq_some_iff] at h
+      obtain ⟨r', hr', _⟩ := h
+      rcases List.mem_cons.mp hx with e | e
+      · subst e; simp
+      · exact ih r' hr' x e
+
+/-- **a listing during which other clients act** (keys scanned in `s0`, descriptors fetched in
+    `s1`): if it reports success, every scanned label could still be fetched — so a label deleted
+    in between fails the listing instead of silently shortening it — and every label it could
+    fetch is in the result: no untouched label is ever dropped. -/
+theorem C08_list_race_sound (s0 s1 : St) (r p : Str) (l : List (Str × Str))
+    (h : listLabelsRace s0 s1 r p = .labels l) :
+    (∀ k ∈ keysPrefix (listPrefix r p) s0.vmd, fetchOne s1 r k ≠ none) ∧
+    (∀ k ∈ keysPrefix (listPrefix r p) s0.vmd, ∀ e, fetchOne s1 r k = some e → e ∈ l) := by
+  unfold listLabelsRace at h
+  split at h
+  · cases h
+  · split at h
+    · cases h
+    · rename_i l' hc
+      cases h
+      constructor
+      · intro k hk
+        exact collect_some_all _ _ hc _ (List.mem_map_of_mem hk)
+      · intro k hk e he
+        exact collect_some_mem _ _ hc e (he ▸ List.mem_map_of_mem hk)
+
+/-- without a race it is the ordinary listing -/
+theorem C08_list_race_same (s : St) (r p : Str) : listLabelsRace s s r p = listLabels s r p := rfl
+
 end Labels
